@@ -184,11 +184,15 @@ Print Assumptions C08_janitor_lru.
 
 (* The type in the key: the model renders the query type as its decimal string for EVERY 16-bit value (however
    the code caches some of them); the harness reads the production cacheKey for all 65536 types on every run and
-   the whole table is compared with this rendering in Coq.  C08_key_injective_partial / _scoped below quantify
+   the whole table is checked to be made of exactly these numerals (all digits, value = type, no leading zero -
+   the characterisation proved here, which determines the string), a dense part of it by evaluating `digits` in Coq
+   (all of it on the thorough tier).  C08_key_injective_partial / _scoped below quantify
    over every type below 65536. *)
 Theorem C08_qtype_rendering :
-  forall q, (q < 65536)%N -> digits q <> [] /\ val (digits q) = q /\ Forall is_digit (digits q).
-Proof. exact qtype_rendering_proof. Qed.
+  forall q, (q < 65536)%N ->
+    Forall is_digit (digits q) /\ val (digits q) = q
+    /\ (q = 0%N -> digits q = [48%N]) /\ (q <> 0%N -> exists d r, digits q = d :: r /\ d <> 48%N).
+Proof. exact digits_canonical_proof. Qed.
 Print Assumptions C08_qtype_rendering.
 Theorem C08_qtype_rendering_injective :
   forall a b, (a < 65536)%N -> (b < 65536)%N -> digits a = digits b -> a = b.
